@@ -6,7 +6,7 @@ from .. import core, tlaval
 RULE = ("Design model: Greedy.tla — one action per iteration over ALL (motif, position) candidates with exact integer losses; "
         "tie-branching; NeverWorse, Monotone, OnlyInWindows, IterBound, termination (also for max_iter=-1) checked by TLC over the "
         "problem family (sequences L 3-4/6, 5 motif sets incl. ones whose best placement is the last fitting position, 3-5 "
-        "targets, output masks, tol in {0, 1/2, 1, 3}, max_iter 0..3 and -1). M1: for every problem the leaves of the model are "
+        "targets, output masks, tol in {0, 1/2, 2, 4} (thorough up to 8), max_iter 0..3 and -1). M1: for every problem the leaves of the model are "
         "the admissible results; greedy_substitution is executed on the mirrored exact-integer model and its result must be one "
         "of them with the same loss. distinct_nontrivial = problems whose admissible result differs from the start or has ties.")
 EXHAUSTIVE = True
